@@ -13,7 +13,8 @@ RULE = ("(A) the four free conversion functions on raw dicts (unsorted / repeate
         "array). Dyadic coefficients compared exactly as multilinear polynomials; a real-coefficient sub-class is "
         "compared with tolerance 1e-9*sum|coef|. Non-trivial = source with >= 2 terms and >= 2 variables; "
         "distinct = digest of (function, source type, source terms)")
-TIERS = {"quick": {"shards": 8, "cases": 500}, "thorough": {"shards": 16, "cases": 20000}}
+TIERS = {"quick": {"shards": 8, "cases": 6000}, "thorough": {"shards": 16, "cases": 50000}}
+FLOOR_BASE = {"quick": 500, "thorough": 20000}    # case counts the floors below were calibrated for; the launcher scales them
 FREE = {"pubo_to_puso": ("bool", False), "puso_to_pubo": ("spin", False),
         "qubo_to_quso": ("bool", True), "quso_to_qubo": ("spin", True)}
 SRC = {"bool": ["dict", "QUBO", "PUBO", "PCBO", "QUBOMatrix", "PUBOMatrix"],
